@@ -110,6 +110,9 @@ func checkC04(r *Run) {
 	c04E3(r)
 	c04Reuse(r)
 	or := Oracles{Sanity: true}
+	// the well-formed-ish fragment and byte spaces of C02 (every sub-parser, incl. configurations with a start offset)
+	// under the sanity oracle: offsets, dereferenceable fields and panics are checked on them too
+	runAllDrivers(r, or)
 	d3 := r.pick(2, 3)
 	L := r.pick(5, 6)
 	num := func(name string, sigma []byte, l int, cfgs []Cfg) []space {
